@@ -7,6 +7,12 @@ CLAIMED = {
  "C09": ("7/C09", "typestate dataflow over go/ssa (iterator/response protocol) + CFG edge-cut guard entailment + field provenance",
          "Structural necessary conditions only: the iterator/response typestate of the range generator, the limit guard and counter, the size cut, count bookkeeping and the field-for-field hand-over are decided for all paths of the current sources. Sortedness and value-level paging equality are Pebble's contract and not decided.",
          "go/types+go/ssa (x/tools v0.29.0); pebble.Iterator First/Next/Key/Value contract; paths over-approximate executions"),
+ "C01": ("7/C01", "ownership and must-pass-through rules over go/ssa: who-writes (batch vs DB), CFG node-cut (commit, index write, make-indexed before read), key provenance, enum/oneof exhaustiveness",
+         "Structural necessary conditions only: single apply batch, commit placement, applied index written with the data from the entry's own index, reads through the indexed batch, read-before-write, key-space discipline of keys/bounds/bookkeeping keys, bounded and exact reads, exhaustive dispatch - decided on all paths of the current sources. Sorted-map semantics of Pebble and response values are not decided.",
+         "go/types+go/ssa; pebble Batch/Reader/Iterator API contracts; role-based anchors (DESIGN section 5)"),
+ "C02": ("7/C02", "CFG edge-cut guard entailment + backward 'return true only if' reachability + operator-table normalisation + loop append-once rule over go/ssa",
+         "Structural necessary conditions only: branch/list/flag agreement on both transaction paths and the table layer, predicates before operations on the same view, failed-predicate edges reach only 'return false', operator table with the stored value on the left, one response per operation arm, one snapshot on the read-only path, read-only classification and its two consumers. Evaluation results and Pebble isolation are not decided.",
+         "go/types+go/ssa; bytes.Compare in {-1,0,1}; C01 obligations hold inside a transaction"),
 }
 PENDING_REASON = "rules designed (DESIGN.md section 7), check not built yet"
 checks=[]; na=[]
